@@ -648,3 +648,23 @@ mod tests {
         );
     }
 }
+
+/// Verification hooks (`--cfg nextest_verif`): the `retries` deserializer (with its
+/// post-deserialize validation) on a TOML fragment.
+#[cfg(nextest_verif)]
+pub mod verif_retry_policy {
+    use super::*;
+
+    #[derive(Deserialize)]
+    struct Wrapper {
+        #[serde(default, deserialize_with = "deserialize_retry_policy")]
+        retries: Option<RetryPolicy>,
+    }
+
+    /// Parses a TOML document of the form `retries = ...` through `deserialize_retry_policy`.
+    pub fn parse_retries_toml(toml_src: &str) -> Result<Option<RetryPolicy>, String> {
+        toml::from_str::<Wrapper>(toml_src)
+            .map(|w| w.retries)
+            .map_err(|e| e.to_string())
+    }
+}
